@@ -128,6 +128,13 @@ t("print_py2_stmt", "import sys\nprint >>sys.stdout, 'a', 'b',\nprint\nprint 'c'
 t("exec_backtick_py2", "exec 'q = 1' in {}\nx = `a`\ntry:\n    raise ValueError, 'v'\nexcept ValueError, e:\n    y = e\nz = 1 <> 2\nw = 0777L", hi=(2, 7))
 t("dict_set_comp_py27", "x = {i: i * 2 for i in a}\ny = {i for i in a}", lo=(2, 7))
 t("long_if_chain_far", "\n".join("%s a == %d:\n    x = [a, a, a, a, a, a, a, a, a, a, a, a]" % ("if" if i == 0 else "elif", i) for i in range(30)) + "\nelse:\n    x = 0")
+# wave 10: two functions whose co_varnames and co_cellvars + co_freevars are equal as tuples while the cell/free split differs
+# (a parameter that is a cell vs. the variable of an inlined comprehension shadowing a free variable), in both orders
+t("localsplus_same_names_split_differs", "def outer():\n    x = 1\n    z = 2\n    def p(x, y):\n        return (lambda: x), y, z\n    def v():\n        y = [x for x in range(3)]\n        return x, y, z\n    return p(1, 2)[1:], v()\nr = outer()")
+t("localsplus_same_names_split_differs_rev", "def outer():\n    x = 1\n    z = 2\n    def v():\n        y = [x for x in range(3)]\n        return x, y, z\n    def p(x, y):\n        return (lambda: x), y, z\n    return v(), p(1, 2)[1:]\nr = outer()")
+t("big_tuple_mixed_300", "x = (" + ", ".join("b'k%d', 'k%d', %d, %d.5" % (i, i, i, i) for i in range(75)) + ")")
+t("big_consts_mixed_300", "def g():\n    return [" + ", ".join(("b'c%d'" if i % 3 == 0 else "'c%d'" if i % 3 == 1 else "%d") % i for i in range(300)) + ", a]\nx = g()")
+t("set_unorderable_members", "x = a in {1j, -1j, 2j}\ny = a in {(None, 0), (0, None)}\nz = a in {None, 0, '0', 0.5, (0,), b'0'}", lo=(3, 2))
 t("const_equal_distinct", "x = (0.0, -0.0, 1, 1.0, True, (1, 2), (1.0, 2.0), 0, False, 0j)")
 
 # ---- functions --------------------------------------------------------------
@@ -362,6 +369,27 @@ def enumerate_programs(ver, k, scopes=None):
             lines = src.split("\n")
             yield ("%s@module" % name, lines[0] + "\n" + PROLOGUE + "\n".join(lines[1:]) + "\n" + EPILOGUE)
     if k >= 2:
+        # every unordered pair of templates together in one code object: the templates (long bodies excepted) are laid on
+        # a p x p grid, p prime; the p*(p+1) lines of the affine plane over GF(p) meet every pair of grid points exactly
+        # once, so p*(p+1) concatenated programs cover all co-occurrences (an exhaustive pairwise design, not a sample)
+        light = [x for x in tl if len(x[4]) <= 700]
+        pr = next(q for q in (13, 17, 19, 23, 29, 31) if q * q >= len(light))
+        grid = {}
+        for idx, x in enumerate(light):
+            grid[(idx // pr, idx % pr)] = x
+        lines = []
+        for m in range(pr):
+            for c in range(pr):
+                lines.append([(i, (m * i + c) % pr) for i in range(pr)])
+        for c in range(pr):
+            lines.append([(c, j) for j in range(pr)])
+        for li, pts in enumerate(lines):
+            members = [grid[q] for q in pts if q in grid]
+            if len(members) < 2:
+                continue
+            body = "\n".join(x[4] for x in members)
+            for s in ("module", "function"):
+                yield ("design%03d[%s]@%s" % (li, "+".join(x[0] for x in members), s), wrap(s, body))
         st = [x for x in tl if x[3]]
         for x1 in st:
             for x2 in st:
